@@ -429,9 +429,31 @@ func (p *Program) fieldAccesses(fields map[*types.Var]bool) []access {
 					out = append(out, access{Fn: fn, Node: ri, In: ref, Field: fld, Held: heldAt(ri), Fresh: fresh, Kind: "load"})
 					// uses of the loaded reference (and of references derived from it) that read or mutate the shared object
 					if isRefType(x.Type()) {
+						// take idiom: `v := s.f; s.f = nil` inside one critical section detaches v from the shared field;
+						// later uses of v (after the unlock) touch an object no other goroutine can reach through s.f
+						detach := -1
+						for _, r2 := range *fa.Referrers() {
+							_ = r2
+						}
+						for j, in2 := range g.Nodes {
+							st, ok := in2.(*ssa.Store)
+							if !ok || !isNilConst(st.Val) {
+								continue
+							}
+							f2, b2 := fieldAddr(st.Addr)
+							if f2 != fld || b2 != base {
+								continue
+							}
+							if g.ReachAfter(ri, nil, nil)[j] && sameSet(heldAt(j), heldAt(ri)) && len(heldAt(ri)) > 0 {
+								detach = j
+							}
+						}
 						for _, d := range derivedUses(x) {
 							ui, ok := g.Idx[d.in]
 							if !ok {
+								continue
+							}
+							if detach >= 0 && ui != detach && g.DominatedByNodes(ui, setOf(detach)) {
 								continue
 							}
 							out = append(out, access{Fn: fn, Node: ui, In: d.in, Field: fld, Write: d.write, Held: heldAt(ui), Fresh: fresh, Kind: d.kind})
